@@ -1,6 +1,6 @@
 (* C16 non-vacuity: concrete inputs that meet the hypotheses of the theorems in
    Props.v and exercise the interesting branches (checked by vm_compute). *)
-From CJ Require Import Common.Base C16.Model C16.Concrete C16.ProofsRead C16.ProofsHb C16.ProofsFc C16.ProofsReg C16.ProofsMat.
+From CJ Require Import Common.Base C16.Model C16.Concrete C16.ProofsRead C16.ProofsHb C16.ProofsFc C16.ModelMw C16.ProofsMw C16.ProofsReg C16.ProofsMat.
 From Coq Require Import Lia.
 
 (* ---- (i) a script with partial reads, the bypass, an empty message and an error carrying data ---- *)
@@ -85,6 +85,62 @@ Example ex_fc_blocks :
 Proof. vm_compute. auto. Qed.
 Example ex_fc_foreign : fbuf (fst (fc_run fc_init (ex_fc_ops ++ [FForeign 32]))) = 393248.
 Proof. vm_compute. reflexivity. Qed.
+
+(* ---- (vi) several goroutines writing to one connection ---- *)
+(* the mutex is contended: the second writer's Lock does nothing while the first is inside *)
+Example ex_mw_contended :
+  let st := mw_run VLocked mw_init [MStart 0 131072; MStart 1 131072; MLockOp 0; MLockOp 1; MCheck 0; MCheck 1] in
+  mpcs st 0%nat = MGo 131072 /\ mpcs st 1%nat = MLock 131072 /\ mlock st = Some 0%nat.
+Proof. vm_compute. auto. Qed.
+(* eight writers, a network that never drains: two writes fit, the third writer is held in the select
+   (holding the mutex), the others wait for the mutex; 256 KiB buffered *)
+Definition ex_mw_locked8 : list mwop :=
+  map (fun t => MStart t 131072) (seq 0 8) ++
+  [MLockOp 0; MCheck 0; MDo 0; MUnlock 0; MRet 0; MLockOp 1; MCheck 1; MDo 1; MUnlock 1; MRet 1;
+   MLockOp 2; MCheck 2; MTake 2; MDo 2; MLockOp 3; MCheck 3].
+Example ex_mw_locked8_holds :
+  let st := mw_run VLocked mw_init ex_mw_locked8 in
+  mbuf st = 262144 /\ mpcs st 2%nat = MSel 131072 /\ mpcs st 3%nat = MLock 131072 /\ mtaken st = false.
+Proof. vm_compute. auto. Qed.
+(* the bound is tight with two writers as well (stale token) *)
+Definition ex_mw_tight : list mwop :=
+  [MStart 0 131072; MLockOp 0; MCheck 0; MDo 0; MUnlock 0; MRet 0;
+   MStart 1 131072; MLockOp 1; MCheck 1; MDo 1; MUnlock 1; MRet 1; MDrain 131072;
+   MStart 0 131072; MLockOp 0; MCheck 0; MDo 0; MUnlock 0; MRet 0;
+   MStart 1 131072; MLockOp 1; MCheck 1; MTake 1; MDo 1].
+Example ex_mw_tight_reached : mbuf (mw_run VLocked mw_init ex_mw_tight) = 393216.
+Proof. vm_compute. reflexivity. Qed.
+
+(* REFUTED VARIANT (the mutual-exclusion hypothesis is not vacuous): with the check outside the critical
+   section, two writers exceed the bound -- writer 1 passes the test on an empty buffer and is then slow to
+   take the mutex, writer 0 fills the buffer to 384 KiB meanwhile, writer 1 adds its 128 KiB on top *)
+Definition ex_unl_two : list mwop :=
+  [MStart 1 131072; MCheck 1;
+   MStart 0 131072; MCheck 0; MLockOp 0; MDo 0; MUnlock 0; MRet 0;
+   MStart 0 131072; MCheck 0; MLockOp 0; MDo 0; MUnlock 0; MRet 0; MDrain 131072;
+   MStart 0 131072; MCheck 0; MLockOp 0; MDo 0; MUnlock 0; MRet 0;
+   MStart 0 131072; MCheck 0; MTake 0; MLockOp 0; MDo 0; MUnlock 0; MRet 0;
+   MLockOp 1; MDo 1].
+Example ex_unl_two_writers_exceed :
+  let st := mw_run VUnlocked mw_init ex_unl_two in mbuf st = 524288 /\ mforeign st = 0 /\ 393216 < mbuf st.
+Proof. vm_compute. auto. Qed.
+(* ... the same operations on the code as it is: writer 1 cannot test before it has the mutex *)
+Example ex_unl_two_on_locked : mbuf (mw_run VLocked mw_init ex_unl_two) <= 393216.
+Proof. vm_compute. discriminate. Qed.
+(* k writers that all test before any writes: k x 128 KiB, no drain, no token involved *)
+Example ex_unl_eight : mbuf (mw_run VUnlocked mw_init (unl_schedule 8)) = 1048576.
+Proof. vm_compute. reflexivity. Qed.
+Example ex_unl_four_no_token : let st := mw_run VUnlocked mw_init (unl_schedule 4) in
+  mbuf st = 524288 /\ mtaken st = false.
+Proof. vm_compute. auto. Qed.
+(* and a wake-up is lost: two writers wait, one token is posted, the second stays in the select with an
+   empty buffer (nothing will ever cross the threshold again) *)
+Example ex_unl_lost_wakeup :
+  let st := mw_run VUnlocked mw_init
+    [MStart 2 131072; MCheck 2; MLockOp 2; MDo 2; MUnlock 2; MRet 2; MStart 2 131072; MCheck 2; MLockOp 2; MDo 2; MUnlock 2; MRet 2;
+     MStart 0 1; MStart 1 1; MCheck 0; MCheck 1; MDrain 262144; MTake 0; MTake 1] in
+  mpcs st 1%nat = MSel 1 /\ mtoken st = false /\ mbuf st = 0.
+Proof. vm_compute. auto. Qed.
 
 (* ---- (iv) two acceptors with one secret, one with another; three connections ---- *)
 Definition ex_asecs (a : nat) : N := match a with 0%nat => 7 | 1%nat => 7 | _ => 9 end.
